@@ -31,6 +31,15 @@ CLAIMED = {
         'Trusted: as C01. Tracing/colouring are not in the model (checked by the oracle only). The theorem covers non-left-recursive '
         'grammars; left-recursive ones are covered by the correspondence and oracle.',
         '7 C04'),
+    'C02': (
+        'Coq model of generated-code runtime (Gen.v) with name-binding theorems + G0/G2 correspondences + generated-vs-model oracle classified by the models',
+        'Gen.v models the runtime of generated parsers (names bound to last_node, define only for sequences, unoptimized grammar); proved: in the '
+        'single-append fragment last_node is the value the named expression returned, so name binding agrees with the model interpreter; a rule call '
+        'appends its value; refutation witness outside the fragment (replayed). Tied by G0 (generated source loads), G2 (real generated parser vs Gen.v, '
+        'using the generated parser own configuration) and by the property oracle itself: generated parser vs model.parse under settings and semantics, '
+        'every divergence classified by the two Coq evaluators (explained = known finding, unexplained = violation).',
+        'Trusted: as C01. Whole-grammar equivalence is not proved (partial): outside the fragment the code really differs (known findings D2a-d).',
+        '7 C02'),
     'C03': (
         'Coq lemmas on the seed-growing loop + correspondence on left-recursive template grammars + independent reference parser',
         'recursive_call/grow are part of the faithful engine model; proved: the loop returns the last seed of a strictly advancing chain, a grown '
